@@ -1,4 +1,5 @@
 """C10 — Every IDE query answers on every workspace, however broken (panic reachability, query cycles, unbounded recursion)."""
+import re
 from lib.report import lookup_reviewed as RP_lookup
 from lib.inventory import guards_hold
 from lib import flow as FL
@@ -1142,6 +1143,19 @@ def cycles_are_cut(F, res, sccs=None, rule="Q10"):
                     ok = po.get("k") == "call" and FL.short(callee(po["t"]) or callee_def(po["t"]) or "").rsplit("::", 1)[-1] in ("pop", "pop_front", "pop_back", "next")
             if not ok and tt["k"] not in ("drop",):
                 bad_exit.append(cq.loc(tt.get("ln")) if tt.get("ln") else str(x))
+        # and it follows every import it can resolve: the only decisions of the walk are "seen before", "the work list is empty" and
+        # "the import names a module" (a walk that stays inside the importer's package does not see a cycle through another one)
+        from rules import c06 as _c06
+        unit_ = [cq] + [F.fns[c] for c in F.closures_of(cq.path) if c in F.fns]
+        found_ = set()
+        for u_ in unit_:
+            found_ |= _c06.decision_names(F, u_)
+        WALK = ("BTreeSet::insert", "HashSet::insert", "IndexSet::insert", "Vec::pop", "VecDeque::pop_front", "VecDeque::pop_back", "ModuleMap::file_for_module_name",
+                "adaptor:Iterator::filter_map", "adaptor:Iterator::flat_map", "adaptor:Iterator::flatten", "BTreeSet::contains", "HashSet::contains", "Not")
+        odd_ = sorted(n_ for n_ in found_ if not (n_.startswith(_c06.SEARCH_PLUMBING) or n_ in _c06.SEARCH_PLUMBING or n_ in WALK or
+                                                  all(x in WALK or x in _c06.SEARCH_PLUMBING or x.startswith(_c06.SEARCH_PLUMBING) for x in re.split(r"[(), ]+", n_) if x and x not in ("Eq", "Ne", "Not"))))
+        res.ob(rule, "cut/import-closure/follows-what-it-resolves", "the walk over the imports decides nothing but: seen before, work list empty, the import names a module",
+               not odd_, where=cq.loc(), how="decisions: %s" % sorted(found_) if not odd_ else "other decisions (an import that resolves may not be followed): %s" % odd_)
         res.ob(rule, "cut/import-closure/walks-to-the-end", "the walk over the imports leaves its loop only when the work list is empty (a module met twice is "
                "skipped, not the end of the walk)", bool(exits) and not bad_exit, where=cq.loc(), how="%d exit edge(s), all on the empty answer of the work list" % len(exits)
                if not bad_exit else "other exits: %s" % bad_exit)
